@@ -97,7 +97,8 @@ def strat(draw, tier="quick"):
     t = draw(st.sampled_from(["xy", "xy", "xy", "hist", "unbinned", "indexed"]))
     if t == "xy":
         spec = draw(S.xy_spec(families=S.NONLINEAR_FAMILIES, costs=("chi2",), n_sources=(1, 3), x_errors=True, model_sources=True, constraints=draw(st.booleans()),
-                              fixed=True, limits=True, deas=("nonlinear", "nonlinear", "iterative"), min_points=7, model_only_first=0.0, noise_scale=0.7))
+                              fixed=True, limits=True, deas=("nonlinear", "nonlinear", "iterative"), min_points=7, model_only_first=0.0, noise_scale=0.7,
+                              y_scales=(None, None, None, 1e-4, 1e3)))
         # make sure a plain absolute y source on the data exists (keeps V positive definite)
         if not any(s["ref"] == "data" and (s.get("axis") or "y") == "y" and not s["relative"] and s.get("enabled", True) and s.get("rho", 0) < 1 for s in spec["sources"]):
             spec["sources"].insert(0, {"name": "base", "ref": "data", "axis": "y", "kind": "simple", "scalar": True, "err": [spec["sigma"]] * 8, "rho": 0.0,
